@@ -1187,7 +1187,8 @@ static qtreetbl_obj_t *new_obj(bool red, const void *name, size_t namesize,
     void *copyname = qmemdup(name, namesize);
     void *copydata = qmemdup(data, datasize);
 
-    if (obj == NULL || copyname == NULL) {
+    if (obj == NULL || copyname == NULL
+        || (copydata == NULL && data != NULL && datasize > 0)) {
         errno = ENOMEM;
         free(obj);
         free(copyname);
